@@ -1,4 +1,9 @@
 import GrmVerif.Lemmas.Actions2
+import GrmVerif.Lemmas.RecActions5
+import GrmVerif.Lemmas.RecActions6
+import GrmVerif.Lemmas.RecActionsEx
+import GrmVerif.Lemmas.LRError
+import GrmVerif.Props.C05
 /-!
 # C08 — actions run once per reduction, bottom-up, with child values and matched span
 
@@ -7,9 +12,25 @@ log of action calls, as in `Parser::lr`). Specification: `Model/ActionsSpec.lean
 the final tree, the calls that must have happened). `logOk log spec` says: same number of calls, in
 the same order, each with the same production, rule and arguments, and the prescribed span (exactly
 from the first to the last lexeme derived; any zero-length span when none was derived).
+
+Recovery on (second half of the file): `Model/RecActions.lean` (`RecAct.recRunA`: `Parser::lr` with a
+recoverer, value stack, span stack and action log; the first reported sequence of every error is
+replayed in value mode as `apply_repairs`/`lr_upto` do). Lexeme identities: real lexeme `i` is `i`, the
+zero-length faulty lexeme inserted before real lexeme `b` is `|w| + 1 + b` (`lexId`), `idSpan` gives each
+identity its span (an inserted lexeme: zero length at the start of the next real lexeme, at the end of
+the last lexeme when inserted at the end of input). Theorems: the driver refines `Rec.recRun`
+(`recovering_driver_refines_recRun`), its plain steps are steps of `stepA`
+(`recovering_driver_steps_are_plain_steps`), and the loop taken one table action per iteration returns
+the same (`recovering_loop_step_by_step`); unconditionally its value and log are those of the run
+over the edited input that offers each refused lexeme first and KEEPS the reductions made under it
+(`recovering_run_is_edited_run_keeping_reductions`), and the log is the specification's call list of
+the returned value (`recovering_actions_match_tree`, `recovering_actions_postorder`); on certified
+tables value and log are exactly those of the PLAIN action driver `parseA` on the edited input
+(`recovering_actions_are_actions_of_edited_input`, `…_certified`), so every theorem about `parseA`
+transfers (`recovering_actions_transfer`, `recovering_value_is_lr_tree_of_edited_input`).
 -/
 namespace GrmVerif.C08
-open GrmVerif Act LR Cert
+open GrmVerif Act LR Cert Rec RecAct C05
 
 /-- the action-calling driver is the LR driver: same outcome, for every fuel -/
 theorem actions_refine_lr (G : Grammar) (A : Automaton) (w : List Nat) (lexSpan : Nat → Nat × Nat) :
@@ -129,5 +150,295 @@ valid derivation of the input) -/
 theorem action_tree_is_lr_tree (G : Grammar) (A : Automaton) (w : List Nat) (lexSpan : Nat → Nat × Nat)
     (fuel : Nat) : (parseA G A w lexSpan fuel).1 = parse G A w fuel :=
   actions_refine_lr G A w lexSpan fuel (initA A)
+
+/-! ## Recovery on: the recovering driver with value stack, span stack and action log -/
+
+/-- **The recovering action driver refines the recovering driver of C05/C07.** Erasing values, spans
+and log from `recRunA` (for every table, input, lexeme spans, recoverer, fuel and configuration) gives
+`Rec.recRun` run with the recoverer `recoverOf` = "report the sequences, continue from where `applySeq`
+of the FIRST one leaves the parser": the same error list, and `recRun`'s value flag says that a value
+was returned (or that the Accept arm met a malformed value stack, the `unreachable!()` of the real code,
+`crash 3`). `recoverOf` satisfies `C05.FirstApplies` by construction (`recoverOf_firstApplies`). -/
+theorem recovering_driver_refines_recRun (G : Grammar) (A : Automaton) (w : List Nat) (lexSpan : Nat → Nat × Nat)
+    (recover : Pos → List (List Repair)) (fuel : Nat) (c : RACfg) (errs : List Err) :
+    recRun G A w (recoverOf G A w recover) fuel ⟨c.v.pstack, c.laidx⟩ errs =
+      (acceptish (recRunA G A w lexSpan recover fuel c errs).1, (recRunA G A w lexSpan recover fuel c errs).2.2) ∧
+    FirstApplies G A w (recoverOf G A w recover) :=
+  ⟨recRunA_erase G A w lexSpan recover fuel c errs, recoverOf_firstApplies G A w recover⟩
+
+/-- **The plain steps of the recovering driver are steps of the plain action driver.** Whenever the
+reductions under the next lexeme end in a shift (for any fuel), the configuration with that lexeme
+pushed is reached from the configuration before them by steps of `Act.stepA` — the very function
+`parseA` iterates: same reductions, same spans, same action calls, same pushes. -/
+theorem recovering_driver_steps_are_plain_steps (G : Grammar) (A : Automaton) (w : List Nat)
+    (lexSpan : Nat → Nat × Nat) (i fuel : Nat) (v x : VCfg) (s' : Nat)
+    (h : feedA G A (nextTok G w i) fuel v = .shifted s' x) :
+    StepsA G A w lexSpan (v.toA i) ((pushLex s' (nextTok G w i) i (lexSpan i) x).toA (i + 1)) :=
+  feedA_shifted_stepsA G A w lexSpan i h
+
+/-- **The loop of `Parser::lr` taken one table action per iteration returns what the model returns.**
+`lrA` is the loop with ONE `Act.stepA` per iteration (Reduce, Shift, Accept or Error arm, no per-lookahead
+fuel; in the Error arm the recoverer is asked and its first sequence replayed). Whenever `recRunA` — which
+handles one lookahead per iteration — returns a value or gives up at an error, `lrA` (with some fuel)
+returns the same outcome, the same log of action calls and the same errors, for every table, input,
+lexeme spans, recoverer and start configuration. So every theorem below about values returned by
+`recRunA` is a theorem about values returned by the step-by-step loop. -/
+theorem recovering_loop_step_by_step (G : Grammar) (A : Automaton) (w : List Nat) (lexSpan : Nat → Nat × Nat)
+    (recover : Pos → List (List Repair)) (fuel : Nat) (c : RACfg) (errs : List Err) (o : Outcome)
+    (log : List Call) (errs' : List Err) (h : recRunA G A w lexSpan recover fuel c errs = (o, log, errs'))
+    (ho : (∃ t, o = .accept t) ∨ (∃ la st, o = .error la st)) :
+    ∃ fuel', lrA G A w lexSpan recover fuel' c errs = (o, log, errs') :=
+  lrA_of_recRunA G A w lexSpan recover fuel c errs o log errs' h ho
+
+/-- **(b), first half: the recovering run is the run over the edited input that keeps the reductions
+made under refused lexemes — with values and log.** No hypothesis about the table beyond the decidable
+end-of-input discipline `eofOk`, none about the recoverer; every input without the end-of-input token,
+every fuel, every start configuration within the input. The run appended errors `new` at increasing
+positions, and if it returned the value `t` with the log `log`, then the value-level run over
+`editedStepsA … new` — the lexemes of the edited input in order (each shifted after the reductions the
+table prescribes under it, every reduction calling its action) and, at each error, FIRST the refused
+lexeme (`offer`: the table reduces under it, the actions run, then it is refused and those reductions
+are KEPT) — followed by the reductions under end-of-input ends in Accept with exactly that value and
+exactly that log. Forgetting identities and spans, `editedStepsA` is `C05.editedSteps`
+(`editedStepsA_erase`), and forgetting values the run is `C05.runSteps` (`runStepsA_erase`): this is
+`C05.recRun_is_edited_run_keeping_reductions` with values. -/
+theorem recovering_run_is_edited_run_keeping_reductions (G : Grammar) (A : Automaton) (w : List Nat)
+    (lexSpan : Nat → Nat × Nat) (recover : Pos → List (List Repair))
+    (heof : eofOk G A = true) (hw : G.eof ∉ w)
+    (fuel : Nat) (c : RACfg) (errs : List Err) (o : Outcome) (log : List Call) (errs' : List Err)
+    (hc : c.laidx ≤ w.length) (h : recRunA G A w lexSpan recover fuel c errs = (o, log, errs')) :
+    ∃ new, errs' = errs ++ new ∧ Ordered w.length c.laidx new ∧
+      (∀ t, o = .accept t → ∃ st y,
+        runStepsA G A c.v (editedStepsA G w lexSpan w.length c.laidx new) = some st ∧
+        feedA G A G.eof FUEL st = .accept y ∧ acceptOut y = .accept t ∧ y.log = log) :=
+  recRunA_own G A w lexSpan recover (eofOk_spec heof).1 (eofOk_spec heof).2 hw fuel c errs o log errs' hc h
+
+/-- **(b), second half — with recovery on, actions run once per reduction, bottom-up, with child values
+and matched span.** On a table that passes `Cert.check` (and `colsOk`, true of every dumped automaton),
+for EVERY input, lexeme spans, recoverer and fuel — no hypothesis about the recoverer, none about kept
+reductions: when the recovering parse returns the value `t`, its log of action calls is exactly the
+specification's call list of `t` (`specCalls`): one call per node of the FINAL tree, children before
+parents and left to right, each with its production, rule and one argument per symbol in order (the
+lexeme for a token — an inserted one included —, the child's value for a rule), and the span from the
+start of the first to the end of the last lexeme the production derived — zero-length when it derived
+none —, where a lexeme inserted by a repair counts as a derived lexeme of zero length at the start of
+the next real lexeme (at the end of the last lexeme when inserted at the end of input): `idSpan`. In
+particular the reductions made under a lexeme that was then refused are nodes of the final tree and
+their actions ran exactly once. -/
+theorem recovering_actions_match_tree (G : Grammar) (A : Automaton) (hc : check G A = true)
+    (hcols : colsOk G A = true) (w : List Nat) (lexSpan : Nat → Nat × Nat)
+    (recover : Pos → List (List Repair)) (fuel : Nat) (t : Tree) (log : List Call) (errs : List Err)
+    (h : parseRA G A w lexSpan recover fuel = (.accept t, log, errs)) :
+    logOk log (specCalls G (idSpan lexSpan w.length) t) = true :=
+  recRunA_logOk G A w lexSpan recover (check_props G A hc) hcols fuel (initRA A) [] t log errs (Nat.zero_le _)
+    (invA_init G A _) (good_init A) h
+
+/-- **once per reduction, in post-order of the final tree, with recovery on** (corollary) -/
+theorem recovering_actions_postorder (G : Grammar) (A : Automaton) (hc : check G A = true)
+    (hcols : colsOk G A = true) (w : List Nat) (lexSpan : Nat → Nat × Nat)
+    (recover : Pos → List (List Repair)) (fuel : Nat) (t : Tree) (log : List Call) (errs : List Err)
+    (h : parseRA G A w lexSpan recover fuel = (.accept t, log, errs)) :
+    log.map (·.p) = Tree.postorder t := by
+  rw [logOk_prods log _ (recovering_actions_match_tree G A hc hcols w lexSpan recover fuel t log errs h),
+    specCalls_prods]
+
+/-- **The value-carrying form of `C05.KeptShiftInvisible` holds of every certified table.**
+`wholeRunCert G A = true` (the decidable certificates of C05's whole-run theorems: `Cert.check`,
+`Cert.checkLA`, `Cert.vpClosed`, `colsOk`) gives `KeptShiftInvisibleA G A`: if the configuration `a`
+left after offering refused lexemes to `b` (their reductions and action calls kept; `b`'s state stack a
+path of the automaton) shifts a token or accepts, then `b` under that token reaches THE SAME value
+configuration — same state, value and span stacks, same log: it makes exactly the kept reductions first,
+because the cell of each kept reduction under the later token holds that very reduction
+(`C05.feed_reduce_same`). `KeptShiftInvisibleA` implies `C05.KeptShiftInvisible`
+(`kept_actions_invisible_implies_kept_shifts_invisible`); the converse fails on tables that merely pass
+`Cert.check`: equal state stacks do not determine the reductions made. -/
+theorem certified_table_keeps_actions_invisible (G : Grammar) (A : Automaton) (h : wholeRunCert G A = true) :
+    check G A = true ∧ colsOk G A = true ∧ KeptShiftInvisibleA G A := by
+  obtain ⟨hc, hvp, hcols, An, hAn, hla⟩ := wholeRunCert_unpack h
+  have P := check_props G A hc
+  obtain ⟨hn, hf, _⟩ := C17.analyses_exact G P.wf An hAn
+  refine ⟨hc, hcols, keptShiftInvisibleA_of_cert hc hla ?_ ?_ hvp hcols⟩
+  · intro r; simpa using hn r
+  · intro r t; simpa using hf r t
+
+/-- the value-carrying hypothesis is a strengthening of C05's -/
+theorem kept_actions_invisible_implies_kept_shifts_invisible (G : Grammar) (A : Automaton)
+    (hk : KeptShiftInvisibleA G A) : KeptShiftInvisible G A :=
+  keptShiftInvisibleA_implies G A hk
+
+/-- **(a) With recovery on, the actions that run are exactly the actions of a plain parse of the edited
+input.** Hypotheses: the table passes `Cert.check` and `colsOk`; `KeptShiftInvisibleA G A` (the reductions
+kept under refused lexemes, with their action calls, are exactly those the plain parse makes under a
+token that is shifted or accepted afterwards; true of every table with `wholeRunCert`, see
+`…_certified`); the first sequence the recoverer reports at every error repairs (`FirstValid … N`,
+`N ≥ 1`, of `recoverOf`; `FirstApplies` holds by construction); the input does not contain the
+end-of-input token. Conclusion, for every lexeme spans and fuel: if the recovering parse returns the
+value `t` with the log `log` and the errors `errs`, then the PLAIN action driver `parseA` run (with some
+fuel) on the edited input — tokens `editedToks` (the first sequence of every error applied), spans
+`editedSpan` (from `editedLex`: a real lexeme keeps its span, an inserted one is the zero-length span at
+the start of the next real lexeme) — accepts with a value `t'` and a log `log'` such that `t` is `t'`
+and `log` is `log'`, call for call in the same order with the same production, rule, span and
+arguments, once the `k`-th lexeme of the edited input is called by the identity the recovering driver
+gives it (`editedId`: the index of the real lexeme, or the flagged identity of the inserted one). -/
+theorem recovering_actions_are_actions_of_edited_input (G : Grammar) (A : Automaton) (w : List Nat)
+    (lexSpan : Nat → Nat × Nat) (recover : Pos → List (List Repair))
+    (hcert : check G A = true) (hcols : colsOk G A = true) (hk : KeptShiftInvisibleA G A)
+    (N : Nat) (hN : 1 ≤ N) (hvalid : FirstValid G A w N (recoverOf G A w recover)) (hw : G.eof ∉ w)
+    (fuel : Nat) (t : Tree) (log : List Call) (errs : List Err)
+    (h : parseRA G A w lexSpan recover fuel = (.accept t, log, errs)) :
+    ∃ fuel' t' log',
+      parseA G A (editedToks w w.length 0 errs) (editedSpan w lexSpan errs) fuel' = (.accept t', log') ∧
+      t = treeMapIdx (editedId w errs) t' ∧ log = log'.map (callMapIdx (editedId w errs)) := by
+  have P := check_props G A hcert
+  obtain ⟨hsh, hacc⟩ := eof_discipline_of_cert P hcols
+  obtain ⟨new, h1, _, h3⟩ := recRunA_plainK G A w lexSpan recover P hcols hN hvalid hsh hacc hw hk fuel
+    (initRA A) [] _ log errs (initV A) (Nat.zero_le _) (.refl _) (Term.IsPath.start A) (Or.inl rfl) h
+  simp only [List.nil_append] at h1
+  subst h1
+  obtain ⟨st, y, f, hfeeds, hacc', hout, hlog⟩ := h3 t rfl
+  obtain ⟨fuel', t', log', hp, ht, hl⟩ := plain_run_is_parseA G A w lexSpan errs hfeeds hacc' hout
+  exact ⟨fuel', t', log', hp, ht, by rw [← hlog, hl]⟩
+
+/-- **(a) on certified tables: no undecidable hypothesis about the table is left.** The same with
+`wholeRunCert G A = true` in place of `check`, `colsOk` and `KeptShiftInvisibleA`. -/
+theorem recovering_actions_are_actions_of_edited_input_certified (G : Grammar) (A : Automaton) (w : List Nat)
+    (lexSpan : Nat → Nat × Nat) (recover : Pos → List (List Repair))
+    (hcert : wholeRunCert G A = true)
+    (N : Nat) (hN : 1 ≤ N) (hvalid : FirstValid G A w N (recoverOf G A w recover)) (hw : G.eof ∉ w)
+    (fuel : Nat) (t : Tree) (log : List Call) (errs : List Err)
+    (h : parseRA G A w lexSpan recover fuel = (.accept t, log, errs)) :
+    ∃ fuel' t' log',
+      parseA G A (editedToks w w.length 0 errs) (editedSpan w lexSpan errs) fuel' = (.accept t', log') ∧
+      t = treeMapIdx (editedId w errs) t' ∧ log = log'.map (callMapIdx (editedId w errs)) := by
+  obtain ⟨h1, h2, h3⟩ := certified_table_keeps_actions_invisible G A hcert
+  exact recovering_actions_are_actions_of_edited_input G A w lexSpan recover h1 h2 h3 N hN hvalid hw fuel t log errs h
+
+/-- **Every theorem about `parseA` transfers to the recovering run** (certified tables; edited input
+made of real tokens, `InputOk`: the recoverer never inserts end-of-input). With `t'`, `log'` the value
+and log of `parseA` on the edited input, of which `t`, `log` are the renamings
+(`recovering_actions_are_actions_of_edited_input_certified`): `log'` is the specification's call list of
+`t'` w.r.t. the edited spans (`actions_match_tree`), its productions are the post-order of `t'` — which
+is the post-order of `t` — (`actions_postorder`), and `t'` is the tree the plain LR driver of C01
+returns for the edited input (`action_tree_is_lr_tree`). -/
+theorem recovering_actions_transfer (G : Grammar) (A : Automaton) (w : List Nat)
+    (lexSpan : Nat → Nat × Nat) (recover : Pos → List (List Repair))
+    (hcert : wholeRunCert G A = true)
+    (N : Nat) (hN : 1 ≤ N) (hvalid : FirstValid G A w N (recoverOf G A w recover)) (hw : G.eof ∉ w)
+    (fuel : Nat) (t : Tree) (log : List Call) (errs : List Err)
+    (h : parseRA G A w lexSpan recover fuel = (.accept t, log, errs))
+    (hin : InputOk G (editedToks w w.length 0 errs)) :
+    ∃ fuel' t' log',
+      parseA G A (editedToks w w.length 0 errs) (editedSpan w lexSpan errs) fuel' = (.accept t', log') ∧
+      t = treeMapIdx (editedId w errs) t' ∧ log = log'.map (callMapIdx (editedId w errs)) ∧
+      logOk log' (specCalls G (editedSpan w lexSpan errs) t') = true ∧
+      log.map (·.p) = Tree.postorder t' ∧ Tree.postorder t = Tree.postorder t' ∧
+      parse G A (editedToks w w.length 0 errs) fuel' = .accept t' := by
+  obtain ⟨hc, _, _⟩ := certified_table_keeps_actions_invisible G A hcert
+  obtain ⟨fuel', t', log', hp, ht, hl⟩ := recovering_actions_are_actions_of_edited_input_certified G A w lexSpan
+    recover hcert N hN hvalid hw fuel t log errs h
+  refine ⟨fuel', t', log', hp, ht, hl, actions_match_tree G A hc _ hin _ fuel' t' log' hp, ?_, ?_, ?_⟩
+  · rw [hl, logMap_prods]; exact actions_postorder G A hc _ hin _ fuel' t' log' hp
+  · rw [ht, postorder_mapIdx]
+  · have := action_tree_is_lr_tree G A (editedToks w w.length 0 errs) (editedSpan w lexSpan errs) fuel'
+    rw [hp] at this; exact this.symm
+
+/-- **The value built through the actions under recovery is the LR tree of the edited input.** Certified
+table, valid first sequences, edited input made of real tokens. The returned value `t` is a valid
+derivation from the start rule whose yield is the edited token list and whose leaves, left to right,
+are exactly the lexemes of the edited input: the `k`-th leaf carries the identity of the `k`-th item of
+`editedItems` — a kept real lexeme by its index, an inserted token as the flagged zero-length lexeme
+before the next real one; the deleted lexemes do not occur. -/
+theorem recovering_value_is_lr_tree_of_edited_input (G : Grammar) (A : Automaton) (w : List Nat)
+    (lexSpan : Nat → Nat × Nat) (recover : Pos → List (List Repair))
+    (hcert : wholeRunCert G A = true)
+    (N : Nat) (hN : 1 ≤ N) (hvalid : FirstValid G A w N (recoverOf G A w recover)) (hw : G.eof ∉ w)
+    (fuel : Nat) (t : Tree) (log : List Call) (errs : List Err)
+    (h : parseRA G A w lexSpan recover fuel = (.accept t, log, errs))
+    (hin : InputOk G (editedToks w w.length 0 errs)) :
+    Tree.valid G t = true ∧ (∃ S, G.rhs G.startProd = [.rule S] ∧ Tree.root G t = .rule S) ∧
+      Tree.yield t = editedToks w w.length 0 errs ∧
+      Tree.leafIdxs t = (editedItems w.length 0 errs).map (lexId w.length) := by
+  obtain ⟨fuel', t', log', _, ht, _, _, _, _, hparse⟩ := recovering_actions_transfer G A w lexSpan recover hcert
+    N hN hvalid hw fuel t log errs h hin
+  -- the erased run is C05's recovering run, whose tree spells the edited input
+  have her := recRunA_erase G A w lexSpan recover fuel (initRA A) []
+  unfold parseRA at h
+  rw [h] at her
+  obtain ⟨fuel'', t'', hparse'', hv, hr, hy, hidx⟩ := returned_tree_spells_edited_input_certified G A w
+    (recoverOf G A w recover) hcert (recoverOf_firstApplies G A w recover) N hN hvalid hw fuel errs her hin
+  have e1 := run_fuel_mono fuel' (init A) _ hparse (by simp) fuel''
+  have e2 := run_fuel_mono fuel'' (init A) _ hparse'' (by simp) fuel'
+  unfold parse at *
+  rw [Nat.add_comm fuel'' fuel', e1] at e2
+  injection e2 with e2
+  subst e2
+  refine ⟨by rw [ht, valid_mapIdx]; exact hv, ?_, by rw [ht, yield_mapIdx]; exact hy, ?_⟩
+  · obtain ⟨S, hS, hroot⟩ := hr
+    exact ⟨S, hS, by rw [ht, root_mapIdx]; exact hroot⟩
+  · rw [ht, leafIdxs_mapIdx, hidx]
+    exact range_map_getD _ (lexId w.length) (.real 0)
+
+/-! ## Tests: the hypotheses of the recovery-on theorems are jointly satisfiable and the conclusions
+compute (`Lemmas/RecActionsEx.lean`: the certified merged 14-state table of C05, input `x a d`, lexeme `k`
+at bytes `3k+1 .. 3k+3`; the repair `insert c, delete` puts `c` inside the production `S → x A c`) -/
+
+/-- the table passes every certificate, the first reported sequence repairs -/
+example : wholeRunCert exG2 exA2 = true := ex2_cert
+example : FirstValid exG2 exA2 [0, 2, 4] 1 (recoverOf exG2 exA2 [0, 2, 4] exRecoverA) := exA_valid
+/-- the recovering run: `A → a` is reduced under the refused `d` (its action runs with the span of `a`,
+bytes 4..6, and the reduction is kept); the inserted `c` is the lexeme `3 + 1 + 2 = 6` of zero length at
+byte 7, the start of the deleted `d`; the action of `S → x A c` gets the lexeme `x`, the value of `A` and
+the inserted lexeme, and the span 1..7, which ENDS AT THE ZERO-LENGTH INSERTED LEXEME -/
+example : parseRA exG2 exA2 [0, 2, 4] exSpan exRecoverA 10 =
+    (.accept (.node 0 [.leaf 0 0, .node 4 [.leaf 2 1], .leaf 3 6]),
+     [⟨4, 2, 4, 6, [.lexeme 2 1]⟩,
+      ⟨0, 1, 1, 7, [.lexeme 0 0, .value (.node 4 [.leaf 2 1]), .lexeme 3 6]⟩],
+     [⟨2, [[.insert 3, .delete], [.delete, .insert 3]]⟩]) := by rfl
+/-- the step-by-step loop returns the same (`recovering_loop_step_by_step`), by evaluation -/
+example : lrA exG2 exA2 [0, 2, 4] exSpan exRecoverA 20 (initRA exA2) [] =
+    parseRA exG2 exA2 [0, 2, 4] exSpan exRecoverA 10 := by rfl
+/-- the edited lexeme sequence: `x`, `a`, and `c` with the zero-length span at byte 7 -/
+example : editedLex [0, 2, 4] exSpan [⟨2, [[.insert 3, .delete], [.delete, .insert 3]]⟩] =
+    [(0, (1, 3)), (2, (4, 6)), (3, (7, 7))] := by decide
+/-- the right-hand side of `recovering_actions_are_actions_of_edited_input`: the plain action driver on
+`x a c` with those spans (it reduces `A → a` under `c`, at the same point, with the same span stack) … -/
+example : parseA exG2 exA2 [0, 2, 3] (editedSpan [0, 2, 4] exSpan [⟨2, [[.insert 3, .delete], [.delete, .insert 3]]⟩]) 20 =
+    (.accept (.node 0 [.leaf 0 0, .node 4 [.leaf 2 1], .leaf 3 2]),
+     [⟨4, 2, 4, 6, [.lexeme 2 1]⟩,
+      ⟨0, 1, 1, 7, [.lexeme 0 0, .value (.node 4 [.leaf 2 1]), .lexeme 3 2]⟩]) := by rfl
+/-- … whose log, with the third lexeme of the edited input called by its identity 6, is the log computed
+by the model of the recovering driver: by evaluation … -/
+example : (parseA exG2 exA2 [0, 2, 3] (editedSpan [0, 2, 4] exSpan [⟨2, [[.insert 3, .delete], [.delete, .insert 3]]⟩]) 20).2.map
+      (callMapIdx (editedId [0, 2, 4] [⟨2, [[.insert 3, .delete], [.delete, .insert 3]]⟩])) =
+    (parseRA exG2 exA2 [0, 2, 4] exSpan exRecoverA 10).2.1 := by rfl
+/-- … and from the theorem -/
+example : ∃ fuel' t' log',
+    parseA exG2 exA2 (editedToks [0, 2, 4] 3 0 [⟨2, [[.insert 3, .delete], [.delete, .insert 3]]⟩])
+      (editedSpan [0, 2, 4] exSpan [⟨2, [[.insert 3, .delete], [.delete, .insert 3]]⟩]) fuel' = (.accept t', log') ∧
+    Tree.node 0 [.leaf 0 0, .node 4 [.leaf 2 1], .leaf 3 6] =
+      treeMapIdx (editedId [0, 2, 4] [⟨2, [[.insert 3, .delete], [.delete, .insert 3]]⟩]) t' ∧
+    [(⟨4, 2, 4, 6, [.lexeme 2 1]⟩ : Call),
+      ⟨0, 1, 1, 7, [.lexeme 0 0, .value (.node 4 [.leaf 2 1]), .lexeme 3 6]⟩] =
+      log'.map (callMapIdx (editedId [0, 2, 4] [⟨2, [[.insert 3, .delete], [.delete, .insert 3]]⟩])) :=
+  recovering_actions_are_actions_of_edited_input_certified exG2 exA2 [0, 2, 4] exSpan exRecoverA ex2_cert 1
+    (Nat.le_refl _) exA_valid (by decide) 10 _ _ _ rfl
+/-- the log satisfies the specification against the returned value (`recovering_actions_match_tree`) -/
+example : logOk (parseRA exG2 exA2 [0, 2, 4] exSpan exRecoverA 10).2.1
+    (specCalls exG2 (idSpan exSpan 3) (.node 0 [.leaf 0 0, .node 4 [.leaf 2 1], .leaf 3 6])) = true := by rfl
+
+/-! ## Test: why the hypothesis carries values. On the (uncertified) table `exA3` the stack left by a
+refused lexeme and the unreduced stack shift the next token to the same state stack — all that
+`C05.KeptShiftInvisible` asks for — after DIFFERENT reductions -/
+
+/-- `z` is refused after `A → a` has been reduced under it -/
+example : feedA exG3 exA3 1 FUEL exV3 =
+    .error ⟨[2, 0], [.node 0 [.leaf 0 0]], [⟨1, 3, false⟩], [⟨0, 2, 1, 3, [.lexeme 0 0]⟩]⟩ := by rfl
+/-- the reduced and the unreduced state stack shift `t` to the same state stack … -/
+example : feed exG3 exA3 2 FUEL [2, 0] = .shifted [4, 2, 0] ∧ feed exG3 exA3 2 FUEL [1, 0] = .shifted [4, 2, 0] :=
+  ⟨rfl, rfl⟩
+/-- … but the unreduced configuration gets there by `C → a`, `A → C`: another value, another log -/
+example : feedA exG3 exA3 2 FUEL exV3 =
+    .shifted 4 ⟨[2, 0], [.node 2 [.node 1 [.leaf 0 0]]], [⟨1, 3, false⟩],
+      [⟨1, 3, 1, 3, [.lexeme 0 0]⟩, ⟨2, 2, 1, 3, [.value (.node 1 [.leaf 0 0])]⟩]⟩ := by rfl
 
 end GrmVerif.C08
